@@ -1,1 +1,162 @@
-/-! Property theorems for C16 (see /verif/DESIGN.md). Only property theorems and non-vacuity examples live here. -/
+import Proofs.C16Pass
+import Proofs.C16Bound
+import Proofs.C16Decl
+import Proofs.C16Rename
+/-! Property theorems for C16 — scalar/array typing is sound, exact and independent of declaration order.
+Model: `GoawkModel.C16` (the pass structure of resolve.go with the function order as a parameter); specification:
+`GoawkModel.C16.Sat` / `Consistent` (a total scalar/array typing satisfying every usage constraint exists). -/
+namespace GoawkModel.C16
+
+/-- Soundness: if the resolver accepts, the typing it ends with (unknown ⇒ scalar) satisfies every usage constraint:
+direct uses, "argument i of f has the type of f's parameter i" through any call graph, non-variable arguments are scalars,
+ARGV/ENVIRON/FIELDS are arrays. Holds for every function order that walks every function. -/
+theorem resolve_sound (p : Program) (order : List Name) (wf : WF p) (hc : Covers order p) (s : State)
+    (h : resolve p order = .ok s) : Sat p (final s) := by
+  have hset := resolve_settled wf order s h
+  refine ⟨fun fn v => dflt_ne_unknown _, ?_, ?_, ?_⟩
+  · intro b hb
+    have := resolve_inv (keeps_stepInv p b) order s (prelude_keeps hb) h
+    simp only [final, this.2]
+    rfl
+  · intro f hf e he
+    exact settled_sat (hset.funcs f.name (hc f hf) (wf.names f hf).1 f (wf.names f hf).2 e he)
+  · intro e he
+    exact settled_sat (hset.main e he)
+
+/-- Completeness: a type error is reported only when no consistent typing exists (for every order, covering or not). -/
+theorem resolve_complete (p : Program) (order : List Name) (wf : WF p) (er : LErr)
+    (h : resolve p order = .error er) (hne : er ≠ (0, 0, .tooMany)) : ¬ Consistent p := by
+  intro ⟨σ, hs⟩
+  exact hne (resolve_err (below_stepInv wf hs) (below_noErr wf hs) order er (prelude_below hs) h)
+
+/-- Every type the resolver decides before defaulting is forced: all consistent typings agree with it. -/
+theorem resolve_forced (p : Program) (order : List Name) (wf : WF p) (s : State) (σ : Typing)
+    (h : resolve p order = .ok s) (hs : Sat p σ) : ∀ fn v, s.ty fn v ≠ .unknown → s.ty fn v = σ fn v :=
+  resolve_inv (below_stepInv wf hs) order s (prelude_below hs) h
+
+/-- Exactness, up to the pass cap (`passes_bound` removes the side condition, see `resolve_exact`):
+the program is accepted iff a consistent typing exists. -/
+theorem resolve_exact_partial (p : Program) (order : List Name) (wf : WF p) (hc : Covers order p)
+    (hcap : resolve p order ≠ .error (0, 0, .tooMany)) :
+    (∃ s, resolve p order = .ok s) ↔ Consistent p := by
+  constructor
+  · intro ⟨s, h⟩
+    exact ⟨final s, resolve_sound p order wf hc s h⟩
+  · intro hcons
+    cases h : resolve p order with
+    | ok s => exact ⟨s, rfl⟩
+    | error er =>
+      by_cases he : er = (0, 0, .tooMany)
+      · rw [he] at h; exact absurd h hcap
+      · exact absurd hcons (resolve_complete p order wf er h he)
+
+/-- The pass cap (`maxIterations` = number of parameters and declared globals after the first pass, as repaired for F19)
+is never what rejects a program: every pass after the first that reports an update decides the type of one more of
+those variables, and ARGV was decided before the first pass. -/
+theorem passes_bound (p : Program) (order : List Name) (wf : WF p) (hb : p.builtins ≠ []) :
+    resolve p order ≠ .error (0, 0, .tooMany) :=
+  resolve_not_tooMany p order wf hb
+
+/-- Exactness: a program is accepted exactly when a consistent scalar/array typing exists — i.e. rejected exactly when
+some variable or parameter would have to be both a scalar and an array. -/
+theorem resolve_exact (p : Program) (order : List Name) (wf : WF p) (hb : p.builtins ≠ []) (hc : Covers order p) :
+    (∃ s, resolve p order = .ok s) ↔ Consistent p :=
+  resolve_exact_partial p order wf hc (passes_bound p order wf hb)
+
+/-- Order independence of the verdict: any two covering function orders accept the same programs. -/
+theorem order_independent (p : Program) (o₁ o₂ : List Name) (wf : WF p) (hb : p.builtins ≠ [])
+    (h₁ : Covers o₁ p) (h₂ : Covers o₂ p) :
+    (∃ s, resolve p o₁ = .ok s) ↔ (∃ s, resolve p o₂ = .ok s) :=
+  (resolve_exact p o₁ wf hb h₁).trans (resolve_exact p o₂ wf hb h₂).symm
+
+/-- Order independence of the types: any two function orders that are both accepted end with the same typing. -/
+theorem order_independent_types (p : Program) (o₁ o₂ : List Name) (wf : WF p) (h₁ : Covers o₁ p) (h₂ : Covers o₂ p)
+    (s₁ s₂ : State) (r₁ : resolve p o₁ = .ok s₁) (r₂ : resolve p o₂ = .ok s₂) :
+    ∀ fn v, final s₁ fn v = final s₂ fn v := by
+  intro fn v
+  have f12 := resolve_forced p o₁ wf s₁ (final s₂) r₁ (resolve_sound p o₂ wf h₂ s₂ r₂) fn v
+  have f21 := resolve_forced p o₂ wf s₂ (final s₁) r₂ (resolve_sound p o₁ wf h₁ s₁ r₁) fn v
+  by_cases hk : s₁.ty fn v = .unknown
+  · by_cases hk2 : s₂.ty fn v = .unknown
+    · simp only [final, hk, hk2]
+    · have := f21 hk2
+      simp only [final, hk] at this ⊢
+      rw [this]; rfl
+  · have := f12 hk
+    simp only [final] at this ⊢
+    rw [← this, dflt_known hk]
+
+/-- Order independence of the printed type tables (what `ParserConfig.DebugTypes` shows and the compiler consumes): the same
+globals exist, and globals and parameters get the same types and the same scalar/array indexes. -/
+theorem order_independent_tables (p : Program) (o₁ o₂ : List Name) (wf : WF p) (h₁ : Covers o₁ p) (h₂ : Covers o₂ p)
+    (s₁ s₂ : State) (r₁ : resolve p o₁ = .ok s₁) (r₂ : resolve p o₂ = .ok s₂) :
+    globalTable p s₁ = globalTable p s₂ ∧ ∀ f, localTable s₁ f = localTable s₂ f := by
+  have hty : final s₁ = final s₂ := by
+    funext fn v; exact order_independent_types p o₁ o₂ wf h₁ h₂ s₁ s₂ r₁ r₂ fn v
+  have hdecl : s₁.decl = s₂.decl := by
+    funext v
+    have e1 := resolve_decl_iff wf o₁ h₁ s₁ r₁ v
+    have e2 := resolve_decl_iff wf o₂ h₂ s₂ r₂ v
+    cases hd1 : s₁.decl v <;> cases hd2 : s₂.decl v <;> simp_all
+  constructor
+  · simp only [globalTable, hty, hdecl]
+  · intro f; simp only [localTable, hty]
+
+/-- Order independence of the verdict: a type error under one order excludes acceptance under any covering order. -/
+theorem order_independent_verdict (p : Program) (o₁ o₂ : List Name) (wf : WF p) (h₂ : Covers o₂ p)
+    (er : LErr) (s₂ : State) (r₁ : resolve p o₁ = .error er) (hne : er ≠ (0, 0, .tooMany)) :
+    resolve p o₂ ≠ .ok s₂ := by
+  intro r₂
+  exact resolve_complete p o₁ wf er r₁ hne ⟨final s₂, resolve_sound p o₂ wf h₂ s₂ r₂⟩
+
+/-- Renaming invariance of the verdict: consistently renaming every identifier (injectively, keeping the top-level scope)
+does not change whether the program is accepted — whatever (covering) walk orders are used for the two spellings, so a
+renaming that reverses the name order, and with it Go's sorted walk order, is included. -/
+theorem rename_invariant (p : Program) (ρ : Name → Name) (hρ : Renaming ρ) (o o' : List Name)
+    (wf : WF p) (wf' : WF (p.rename ρ)) (hb : p.builtins ≠ []) (hc : Covers o p) (hc' : Covers o' (p.rename ρ)) :
+    (∃ s, resolve (p.rename ρ) o' = .ok s) ↔ (∃ s, resolve p o = .ok s) := by
+  have hb' : (p.rename ρ).builtins ≠ [] := by
+    intro h
+    simp only [Program.rename, List.map_eq_nil_iff] at h
+    exact hb h
+  exact ((resolve_exact (p.rename ρ) o' wf' hb' hc').trans (consistent_rename hρ p)).trans (resolve_exact p o wf hb hc).symm
+
+/-! ### non-vacuity: `function f(a) { a[1] }  BEGIN { f(x) }` with ARGV=1 ENVIRON=2 FIELDS=3 a=4 f=5 x=6 -/
+
+def exProg : Program :=
+  { funcs := [⟨5, [4], [.use 4 .array]⟩], main := [.call 5 1, .varArg 5 0 6], specials := [], builtins := [1, 2, 3] }
+
+/-- the same with `x = 1` added: rejected -/
+def exBad : Program := { exProg with main := exProg.main ++ [.use 6 .scalar] }
+
+theorem exProg_wf : WF exProg := by
+  refine ⟨?_, ?_, ?_, ?_⟩
+  · intro e he
+    simp [exProg] at he
+    rcases he with rfl | rfl
+    · trivial
+    · simp [ArgOK, Program.paramsOf, Program.findFunc, exProg]
+  · intro f hf e he
+    simp [exProg] at hf
+    subst hf
+    simp at he
+    subst he
+    trivial
+  · intro b hb; simp [exProg]
+  · intro f hf
+    simp [exProg] at hf
+    subst hf
+    simp [Program.findFunc, exProg]
+
+example : Covers [5] exProg := by intro f hf; simp [exProg] at hf; subst hf; simp
+
+example : ∃ s, resolve exProg [5] = .ok s ∧ final s 0 6 = .array ∧ final s 5 4 = .array := by
+  refine ⟨_, rfl, ?_, ?_⟩ <;> decide
+
+example : resolve exBad [5] = .error (0, 2, .useAs .array 6 .scalar) := rfl
+
+example : exProg.builtins ≠ [] := by decide
+
+example : Renaming (fun n => 2 * n) := ⟨fun _ _ h => Nat.eq_of_mul_eq_mul_left (by decide : 0 < 2) h, rfl⟩
+
+end GoawkModel.C16
